@@ -130,6 +130,17 @@ def run(ctx):
                 uncached[k] = one_run(cfg, inputs, None)[:2]
         return uncached[k]
 
+    def reproducible(cfg, inputs, rows, st):
+        """the searches of the MCS stage work under wall-clock budgets: under machine load the uncached reference itself can differ from
+        run to run.  A difference counts only if a second, fresh uncached run still differs from the cached run in the same way."""
+        with contextlib.redirect_stderr(io.StringIO()):
+            r2, s2 = one_run(cfg, inputs, None)[:2]
+        if r2 == rows and s2 == st:
+            uncached[json.dumps([cfg, inputs], sort_keys=True)] = (r2, s2)
+            ctx.timing_unstable += 1
+            return False
+        return True
+
     coq_cases, meta = [], []
     # fixed histories that need a specific order: an entry written under a HIGHER threshold read under a lower one (and the
     # reverse) for MCS results whose confidence lies between, atom-map removal switched off and on, one object re-used
@@ -166,7 +177,7 @@ def run(ctx):
                 ctx.count("fixed", "runs")
                 if hist:
                     ctx.nontrivial.add(json.dumps(case, sort_keys=True))
-                if rows != rrows or st != rst:
+                if (rows != rrows or st != rst) and reproducible(cfg, inputs, rows, st):
                     ctx.fail("cached-run-differs-from-uncached", case, {"cached": rows[:3], "uncached": rrows[:3], "cached_stats": st, "uncached_stats": rst})
                 hist.append((cfg, inputs))
         finally:
@@ -229,7 +240,7 @@ def run(ctx):
                 ctx.count("batches", "hit", hows.count("Hit")); ctx.count("batches", "miss", hows.count("Miss")); ctx.count("batches", "lost", hows.count("Lost"))
                 if damaged:
                     ctx.count("damage", damaged)
-                if rows != rrows or st != rst:
+                if (rows != rrows or st != rst) and reproducible(cfg, inputs, rows, st):
                     served_other_cfg = any(c != cfg and i == inputs for c, i in hist) or "Hit" in hows
                     ctx.fail("cache-serves-other-configuration" if served_other_cfg and any({k: v for k, v in c.items() if k != "bs"} != {k: v for k, v in cfg.items() if k != "bs"} for c, _ in hist) else "cached-run-differs-from-uncached",
                              case, {"cached": rows[:3], "uncached": rrows[:3], "cached_stats": st, "uncached_stats": rst, "hows": hows})
@@ -320,7 +331,7 @@ def run(ctx):
                 except Exception as e:
                     ctx.fail("unreadable-entry-raises", {"run": [cfg, inputs], "entry_truncated_to_bytes": o}, {"error": "%s: %s" % (type(e).__name__, str(e)[:160])})
                     continue
-                if rows != rrows or st != rst:
+                if (rows != rrows or st != rst) and reproducible(cfg, inputs, rows, st):
                     ctx.fail("cached-run-differs-from-uncached", {"run": [cfg, inputs], "entry_truncated_to_bytes": o}, {"cached": rows[:2], "uncached": rrows[:2]})
                 # the run must have repaired the entry
                 with open(p, "rb") as fh:
